@@ -49,7 +49,13 @@ pub fn line_bytes(k: usize, len: usize, kind: &str) -> Vec<u8> {
 pub fn text_of(case: &Value) -> Vec<u8> {
     let mut t = Vec::new();
     let lines = case["lines"].as_array().unwrap();
+    // (shrinking may leave fewer lines than the sentinel's position: it then goes last)
+    let stop_at = case["stop_at"].as_u64().map(|x| (x as usize).min(lines.len()));
     for (k, l) in lines.iter().enumerate() {
+        if stop_at == Some(k) {
+            // the sentinel line of mode "cond" (no generated line can equal it: they start with "L")
+            t.extend_from_slice(b"STOP\n");
+        }
         let mut lb = line_bytes(k, l["len"].as_u64().unwrap() as usize, l["kind"].as_str().unwrap());
         if case["cr"] == "inner" && lb.len() > 4 {
             // a CR in the middle of the line (ASCII position: the prefix "L<k>:" is ASCII)
@@ -63,7 +69,18 @@ pub fn text_of(case: &Value) -> Vec<u8> {
             t.push(b'\n');
         }
     }
+    if stop_at == Some(lines.len()) {
+        if t.last().is_some_and(|b| *b != b'\n') {
+            t.push(b'\n');
+        }
+        t.extend_from_slice(b"STOP\n");
+    }
     t
+}
+
+/// Position (line index) of the sentinel of mode "cond".
+fn stop_line(case: &Value) -> usize {
+    (case["stop_at"].as_u64().unwrap_or(0) as usize).min(case["lines"].as_array().map_or(0, Vec::len))
 }
 
 fn gen_len(r: &mut Rng, tier: Tier) -> usize {
@@ -192,7 +209,7 @@ impl Engine for C17 {
             }
         }
         let calls = nlines + 3;
-        let mode = match r.below(13) {
+        let mode = match r.below(15) {
             0 | 1 => "direct",
             2 | 3 => "loop",
             4 => "array",
@@ -204,9 +221,14 @@ impl Engine for C17 {
             7 => "wrapper2",
             // a filtering loop that skips most lines with `next`, on a small frame arena
             8 | 9 => "filter",
+            // read_line inside the loop condition: the loop runs until a sentinel line arrives
+            10 => "cond",
+            // the line-reading helper is declared at the bottom of a function, below its `return`
+            // (definitions are visible throughout their block)
+            11 => "hoisted",
             _ => "straight",
         };
-        if mode == "filter" {
+        if mode == "filter" || mode == "cond" {
             // many short lines: what a skipped iteration leaves behind must not add up
             let n = r.pick(&[150usize, 400, 1500]) + r.usize(0, 30);
             let lines: Vec<Value> = (0..n).map(|_| json!({"len": r.usize(0, 120), "kind": r.pick(&KINDS)})).collect();
@@ -217,7 +239,12 @@ impl Engine for C17 {
             // iterations would pile up if they did not give their memory back
             case["frame_kib"] = json!(r.pick(&[512u64, 1024]));
         }
-        let calls = if mode == "filter" { case["lines"].as_array().unwrap().len() + 2 } else { calls };
+        if mode == "cond" {
+            // the sentinel sits a few lines before the end
+            let n = case["lines"].as_array().unwrap().len();
+            case["stop_at"] = json!(n - r.usize(1, 5));
+        }
+        let calls = if mode == "filter" || mode == "cond" { case["lines"].as_array().unwrap().len() + 3 } else { calls };
         let mut errors = vec![];
         if r.chance(8) {
             let errno = r.pick(&[libc::EIO, libc::EINTR, libc::EAGAIN]);
@@ -233,6 +260,22 @@ impl Engine for C17 {
             case["cr"] = json!(r.pick(&["crlf", "crlf", "inner"]));
             case["mode"] = json!("direct");
             case["errors"] = json!([]);
+        }
+        if i % 97 == 50 {
+            // a line of a megabyte and more, between two short ones, delivered in large pieces
+            let huge = r.pick(&[(1usize << 20) - 1, 1 << 20, (1 << 20) + 1, 1_572_864, (2 << 20) + 5]);
+            case["lines"] = json!([{"len": r.usize(0, 20), "kind": "ascii"}, {"len": huge, "kind": r.pick(&["ascii", "mixed"])}, {"len": r.usize(0, 20), "kind": "two"}]);
+            case["final_newline"] = json!(r.chance(50));
+            case["plan"] = json!(match r.below(3) {
+                0 => vec![usize::MAX >> 1],
+                1 => vec![65_536usize],
+                _ => vec![8192usize, 100_000, 8191],
+            });
+            case["calls"] = json!(6);
+            case["mode"] = json!(r.pick(&["direct", "loop", "straight"]));
+            case["errors"] = json!([]);
+            case.as_object_mut().unwrap().remove("cr");
+            case.as_object_mut().unwrap().remove("stop_at");
         }
         if i % 200 == 199 {
             // the same input through a real pipe into the real binary
@@ -252,6 +295,9 @@ impl Engine for C17 {
         let text = text_of(case);
         let calls = case["calls"].as_u64().unwrap() as usize;
         let mode = case["mode"].as_str().unwrap();
+        // mode "cond" runs on a small frame arena: only a handful of straight-line calls after the loop
+        // (top-level statements are not iterations; what they allocate stays until the program ends)
+        let calls = if mode == "cond" { (stop_line(case) + 1) + calls.saturating_sub(stop_line(case) + 1).min(8) } else { calls };
         let plan: Vec<usize> =
             case["plan"].as_array().unwrap().iter().map(|x| x.as_u64().unwrap() as usize).collect();
         let errors: Vec<(usize, i32)> = case["errors"]
@@ -335,6 +381,17 @@ impl Engine for C17 {
                          if to say ((i mod {keep}) pass 0) start\n    next\n  end\n  shout(line)\nend\n",
                         keep = case["keep_every"].as_u64().unwrap_or(1)
                     ),
+                    "hoisted" => format!(
+                        "do main() start\n{}    return 0\n\n    do next_line() start\n        return read_line(\"\")\n    end\nend\nmain()\n",
+                        "    shout(next_line())\n".repeat(calls)
+                    ),
+                    "cond" => {
+                        let k = stop_line(case);
+                        format!(
+                            "make n get 0\njasi (not (read_line(\"\") na \"STOP\")) start\n  n get n add 1\nend\nshout(n)\n{}",
+                            "shout(read_line(\"\"))\n".repeat(calls.saturating_sub(k + 1))
+                        )
+                    }
                     _ => "shout(read_line(\"\"))\n".repeat(calls),
                 };
                 let skipped = match mode {
@@ -342,7 +399,7 @@ impl Engine for C17 {
                     "wrapper2" if calls >= 4 => 3,
                     _ => 0,
                 };
-                let out = if mode == "filter" {
+                let out = if mode == "filter" || mode == "cond" {
                     // the embedder's arena sizes are a tuning knob; a loop iteration must give back what it took
                     pipeline::run_library_caps(&src, true, None, pipeline::ARENA_CAP, (case["frame_kib"].as_u64().unwrap_or(256) as usize) << 10)
                 } else {
@@ -373,6 +430,24 @@ impl Engine for C17 {
                             if err.is_empty() && printed.next().is_some() {
                                 fake_libc::take_stdin();
                                 return res.violation("wrong-line", "the filtering loop printed more lines than it kept".into());
+                            }
+                        } else if mode == "cond" {
+                            // the loop consumed the lines up to and including the sentinel and counted them
+                            let k = stop_line(case);
+                            let mut printed = out.into_iter();
+                            match printed.next() {
+                                Some(n) if n == k.to_string().into_bytes() => {
+                                    got.extend(expected.iter().take(k + 1).cloned());
+                                    got.extend(printed);
+                                }
+                                Some(n) => {
+                                    fake_libc::take_stdin();
+                                    return res.violation(
+                                        "wrong-line",
+                                        format!("the loop `jasi (not (read_line(\"\") na \"STOP\"))` ran {} times; the sentinel is line {k}", String::from_utf8_lossy(&n)),
+                                    );
+                                }
+                                None => {}
                             }
                         } else {
                             got.extend(out);
@@ -594,7 +669,7 @@ impl Engine for C17 {
          one line per read, 1 byte, fixed k, random, aligned to end on/before/after each newline, 8 KiB-aligned) \
          + mode (script straight-line / loop / collect-into-array / first results unused / behind one or two \
          user functions with unused results / filtering loop that skips most of 150-1530 lines with `next` on a \
-         512-1024 KiB frame arena, or direct sys::stdin::read_line) + optional injected read error (it may \
+         512-1024 KiB frame arena / read_line in a loop condition until a sentinel line, same arena / a helper declared below its function's `return`, or direct sys::stdin::read_line) + optional injected read error (it may \
          surface, or be retried inside read_line; either way no call may return a wrong line). Non-trivial = some read returned bytes past a newline, or the buffer had to grow \
          past 8 KiB, or a multi-byte character was split across reads. Distinct = hash of text shape, mode and \
          the (asked, returned) log of every read."
